@@ -22,10 +22,10 @@ if [ "$id" = C17 ]; then
   go run ./tools/maprange -pkg github.com/cosmos72/gomacro/base/dep -out "$ov" >&2 || { echo "BUILD-FAILURE (maprange)" >&2; exit 2; }
   mkdir -p bin
   go test -c -tags verif -overlay "$ov/overlay.json" -o bin/simcheck-c17 ./cmd/simcheck || { echo "BUILD-FAILURE (overlay)" >&2; exit 2; }
-  bin/simcheck-c17 -test.run='^TestSim$' -test.timeout=0 -sim.cmd=run -sim.prop="$id" -sim.tier="$tier" 2>&1
+  bin/simcheck-c17 -test.run='^TestSim$' -test.timeout=0 -sim.cmd=run -sim.prop="$id" -sim.tier="$tier" -sim.workers="${VERIF_WORKERS:-0}" 2>&1
   exit $?
 fi
 ./build.sh $kind || exit 2
 bin=bin/simcheck
 [ $kind = race ] && bin=bin/simcheck-race
-exec $bin -test.run='^TestSim$' -test.timeout=0 -sim.cmd=run -sim.prop="$id" -sim.tier="$tier" 2>&1
+exec $bin -test.run='^TestSim$' -test.timeout=0 -sim.cmd=run -sim.prop="$id" -sim.tier="$tier" -sim.workers="${VERIF_WORKERS:-0}" 2>&1
